@@ -11,8 +11,9 @@
 (*                               imm, '...,X' is x, '...,Y' is y or indy)   *)
 (*   [k |-> "l", name]           a label                                    *)
 (*   [k |-> "d"]                 a dummy (a removed instruction)            *)
-(*   [k |-> "o"]                 anything else (comment, inline assembly):  *)
-(*                               the scan steps over it without a thought   *)
+(*   [k |-> "o"]                 a comment: the scan steps over it           *)
+(*   [k |-> "a"]                 inline assembly: may do anything, restarts  *)
+(*                               the beliefs like a label                    *)
 (* The algorithm keeps two cursors (first, second) on instructions, three   *)
 (* beliefs "register R holds operand o" and one belief "the flags describe  *)
 (* register R"; one iteration of its main loop is one Step here.            *)
@@ -26,6 +27,7 @@ IP(mn, op) == [k |-> "i", mn |-> mn, op |-> op, prot |-> TRUE]
 L(n) == [k |-> "l", name |-> n]
 Dummy == [k |-> "d"]
 Other == [k |-> "o"]
+Asm == [k |-> "a"]
 None == [b |-> "<none>", m |-> "none"]          \* "no belief"
 
 IsI(c, i) == i > 0 /\ i <= Len(c) /\ c[i].k = "i"
@@ -80,7 +82,7 @@ StepB(st) ==
   IF st.done THEN st
   ELSE IF st.second = 0 THEN [st EXCEPT !.done = TRUE, !.atEnd = TRUE]     \* the scan ran off the end: the beliefs describe the end of the code
   ELSE IF c[st.second].k = "i" THEN st
-  ELSE IF c[st.second].k = "l"
+  ELSE IF c[st.second].k \in {"l", "a"}
        THEN LET n1 == NextIdx(c, st.nxt)
                 f == SkipToInstr(c, n1.i, n1.nxt)
             IN IF f.i = 0 THEN [st EXCEPT !.done = TRUE]
@@ -128,30 +130,31 @@ StepD(st, i2) ==
           rm |-> st.acc = o /\ ~i2.prot /\ (st.flags = "A" \/ LookAhead(st))]
     [] mn = "LDX" ->
          [st |-> [st EXCEPT !.acc = DropIf(st.acc, EndsX(st.acc)), !.yr = DropIf(st.yr, EndsX(st.yr)), !.xr = o, !.flags = "X"],
-          rm |-> st.xr = o /\ ~i2.prot]
+          rm |-> st.xr = o /\ ~i2.prot /\ st.flags = "X"]
     [] mn = "LDY" ->
          [st |-> [st EXCEPT !.acc = DropIf(st.acc, EndsY(st.acc)), !.xr = DropIf(st.xr, EndsY(st.xr)), !.yr = o, !.flags = "Y"],
-          rm |-> st.yr = o /\ ~i2.prot]
+          rm |-> st.yr = o /\ ~i2.prot /\ st.flags = "Y"]
     [] mn \in {"INC", "DEC"} ->
-         [st |-> [st EXCEPT !.acc = DropIf(st.acc, st.acc = o), !.xr = DropIf(st.xr, st.xr = o), !.yr = DropIf(st.yr, st.yr = o), !.flags = "Unknown"],
-          rm |-> FALSE]
+         [st |-> [st EXCEPT !.acc = DropIf(st.acc, ~IsImm(st.acc)), !.xr = DropIf(st.xr, ~IsImm(st.xr)), !.yr = DropIf(st.yr, ~IsImm(st.yr)), !.flags = "Unknown"],
+          rm |-> FALSE]      \* memory is modified: like a store, under whatever spelling the cell is known
     [] mn \in {"INX", "DEX"} ->
          [st |-> [st EXCEPT !.acc = DropIf(st.acc, EndsX(st.acc)), !.yr = DropIf(st.yr, EndsX(st.yr)), !.xr = None, !.flags = "Unknown"], rm |-> FALSE]
     [] mn \in {"INY", "DEY"} ->
          [st |-> [st EXCEPT !.acc = DropIf(st.acc, EndsY(st.acc)), !.xr = DropIf(st.xr, EndsY(st.xr)), !.yr = None, !.flags = "Unknown"], rm |-> FALSE]
     [] mn = "TAX" ->
-         [st |-> [st EXCEPT !.xr = IF EndsX(st.acc) THEN None ELSE st.acc, !.acc = DropIf(st.acc, EndsX(st.acc)), !.yr = DropIf(st.yr, EndsX(st.yr))], rm |-> FALSE]
+         [st |-> [st EXCEPT !.flags = "X", !.xr = IF EndsX(st.acc) THEN None ELSE st.acc, !.acc = DropIf(st.acc, EndsX(st.acc)), !.yr = DropIf(st.yr, EndsX(st.yr))], rm |-> FALSE]
     [] mn = "TAY" ->
-         [st |-> [st EXCEPT !.yr = IF EndsY(st.acc) THEN None ELSE st.acc, !.acc = DropIf(st.acc, EndsY(st.acc)), !.xr = DropIf(st.xr, EndsY(st.xr))], rm |-> FALSE]
-    [] mn = "TXA" -> [st |-> [st EXCEPT !.acc = st.xr], rm |-> FALSE]
-    [] mn = "TYA" -> [st |-> [st EXCEPT !.acc = st.yr], rm |-> FALSE]
+         [st |-> [st EXCEPT !.flags = "Y", !.yr = IF EndsY(st.acc) THEN None ELSE st.acc, !.acc = DropIf(st.acc, EndsY(st.acc)), !.xr = DropIf(st.xr, EndsY(st.xr))], rm |-> FALSE]
+    [] mn = "TXA" -> [st |-> [st EXCEPT !.acc = st.xr, !.flags = "A"], rm |-> FALSE]
+    [] mn = "TYA" -> [st |-> [st EXCEPT !.acc = st.yr, !.flags = "A"], rm |-> FALSE]
     [] mn \in {"STA", "STX", "STY"} ->
          [st |-> [st EXCEPT !.acc = DropIf(st.acc, ~IsImm(st.acc)), !.xr = DropIf(st.xr, ~IsImm(st.xr)), !.yr = DropIf(st.yr, ~IsImm(st.yr))], rm |-> FALSE]
-    [] mn \in {"ADC", "SBC", "EOR", "AND", "ORA", "PLA", "PHA"} -> [st |-> [st EXCEPT !.acc = None], rm |-> FALSE]
+    [] mn \in {"ADC", "SBC", "EOR", "AND", "ORA", "PLA"} -> [st |-> [st EXCEPT !.acc = None, !.flags = "A"], rm |-> FALSE]
+    [] mn = "PHA" -> [st |-> [st EXCEPT !.acc = None], rm |-> FALSE]
     [] mn \in ShiftMns ->      \* on A or on memory
-         [st |-> [st EXCEPT !.acc = None, !.xr = DropIf(st.xr, st.xr = o), !.yr = DropIf(st.yr, st.yr = o), !.flags = "Unknown"], rm |-> FALSE]
+         [st |-> [st EXCEPT !.acc = None, !.xr = DropIf(st.xr, o.m # "none" /\ ~IsImm(st.xr)), !.yr = DropIf(st.yr, o.m # "none" /\ ~IsImm(st.yr)), !.flags = "Unknown"], rm |-> FALSE]
     [] mn \in {"JSR", "JMP"} -> [st |-> Forget(st), rm |-> FALSE]
-    [] mn \in {"CPX", "CPY", "CMP"} -> [st |-> [st EXCEPT !.flags = "Unknown"], rm |-> FALSE]
+    [] mn \in {"CPX", "CPY", "CMP", "PLP"} -> [st |-> [st EXCEPT !.flags = "Unknown"], rm |-> FALSE]
     [] OTHER -> [st |-> st, rm |-> FALSE]
 
 \* ---- one iteration of the main loop ------------------------------------------------
@@ -209,7 +212,8 @@ Rd(o, m) == IF o.m = "imm" THEN ImmVal[o.b] ELSE m.mem[Cell(o, m)]
 W8(x) == x % 256
 NZ(m, v) == [m EXCEPT !.Z = IF v = 0 THEN 1 ELSE 0, !.N = v \div 128]
 Exec(line, m) ==
-  IF line.k # "i" THEN m ELSE
+  IF line.k = "a" THEN NZ([m EXCEPT !.A = W8(@ + 3), !.X = W8(@ + 5), !.Y = W8(@ + 7), !.C = 1 - @], 1)     \* inline assembly: "anything"
+  ELSE IF line.k # "i" THEN m ELSE
   LET mn == line.mn   o == line.op IN
   CASE mn = "LDA" -> NZ([m EXCEPT !.A = Rd(o, m)], Rd(o, m))
     [] mn = "LDX" -> NZ([m EXCEPT !.X = Rd(o, m)], Rd(o, m))
@@ -249,7 +253,7 @@ Holds(b, reg, m) == b # None => reg = Rd(b, m)
 FlagsOf(v) == [Z |-> IF v = 0 THEN 1 ELSE 0, N |-> v \div 128]
 BeliefsHold(st, m) ==
   /\ Holds(st.acc, m.A, m) /\ Holds(st.xr, m.X, m) /\ Holds(st.yr, m.Y, m)
-  \* the code only ever asks "flags = A?"; the values X and Y of the flags belief just mean "not A" (they are not
-  \* maintained: LDX #1; TAY leaves "X" although the flags now describe Y)
   /\ st.flags = "A" => [Z |-> m.Z, N |-> m.N] = FlagsOf(m.A)
+  /\ st.flags = "X" => [Z |-> m.Z, N |-> m.N] = FlagsOf(m.X)
+  /\ st.flags = "Y" => [Z |-> m.Z, N |-> m.N] = FlagsOf(m.Y)
 =============================================================================
